@@ -17,6 +17,7 @@ from pymbolic.mapper.substitutor import make_subst_func, SubstitutionMapper
 from .. import usertypes as U
 from ..core import check, short
 from ..gen import expr as G
+from ..gen import scale
 from ..ref import normal
 
 RULE = ("pair pools: ~150 objects per pool built so every node class (built-in, decorated user, "
@@ -367,7 +368,11 @@ class _Deps(DependencyMapper):
 
 
 OPS = ["hash", "eq_partner", "eq_twin", "copy", "deepcopy", "pickle", "replace", "repr", "str",
-       "identity", "subst", "deps", "dictkey", "setattr", "delattr", "flatten", "initargs"]
+       "identity", "subst", "deps", "dictkey", "setattr", "delattr", "flatten", "initargs",
+       "augmented", "augmented"]
+import operator as _op
+AUGMENTED = [_op.iadd, _op.isub, _op.imul, _op.itruediv, _op.ifloordiv, _op.imod, _op.ipow,
+             _op.ilshift, _op.irshift, _op.iand, _op.ior, _op.ixor, _op.iadd, _op.imul]
 
 
 @check("C01.history")
@@ -446,6 +451,17 @@ def c_history(ctx, case):
                     _Deps()(o)
                 except (NotImplementedError, ValueError, TypeError, AttributeError):
                     pass
+            elif op == "augmented":
+                # `alias += term` on a second reference to a node: augmented assignment REBINDS
+                # the alias; the node other references see is not touched
+                alias = o
+                term = rng.choice([p.Variable("zz_t"), 3, p.Sum((p.Variable("x"), 1)), o, 2.5])
+                try:
+                    alias = rng.choice(AUGMENTED)(alias, term)
+                except (TypeError, ValueError, ZeroDivisionError, NotImplementedError,
+                        AttributeError):
+                    pass        # nodes without arithmetic, constant folding that divides by zero
+                ctx.count("augmented_assignments")
             elif op == "dictkey":
                 d = {o: step}
                 if d[o] != step or o not in d:
@@ -606,17 +622,48 @@ def workload(ctx):
                 except TypeError:
                     continue
                 ctx.run("C01.copyhash", (a, rng.random() < 0.7))
+    # wide nodes: 9 .. 130 operands (thorough: up to 1404), the variants differing in ONE operand
+    # by a value of equal hash (-1 / -2, k / k + 2**61 - 1), in one operand's position, or not at all
+    x = p.Variable("x")
+    for w in scale.WIDTHS + (scale.HUGE_WIDTHS if ctx.thorough else []):
+        if not ctx.mine("wide"):
+            continue
+        vs = scale.variables(w)
+        slot = rng.randrange(w)
+        c1, c2 = rng.choice([(-1, -2), (5, 5 + M61), (p.Product((-1, x)), p.Product((-2, x))),
+                             (-1.0, -2.0)])
+        mk = rng.choice([p.Sum, p.Product, p.Min, p.LogicalOr, p.BitwiseXor,
+                         lambda t: p.Call(x, t), lambda t: p.Subscript(x, t),
+                         lambda t: p.CallWithKwargs(x, t, immutabledict({"k": 1})),
+                         lambda t: U.LegacySum(t)])
+
+        def tup(c, swap=False):
+            t = list(vs)
+            t[slot] = c
+            if swap:
+                t[0], t[-1] = t[-1], t[0]
+            return tuple(t)
+        wide = [mk(tup(c1)), mk(tup(c2)), mk(tup(c1)), mk(tup(c1, True)), mk(tup(c1)[:-1]),
+                p.Sum((mk(tup(c1)), 1)), p.Sum((mk(tup(c2)), 1))]
+        ctx.count("wide_nodes", len(wide))
+        for a in wide:
+            ctx.case(("wide", w, snapshot(a)), True, n=0)
+            for b in wide:
+                ctx.run("C01.pair", (a, b))
+            ctx.run("C01.immutable", a)
     nh = ctx.per_shard(ctx.pick(40, 800))
     for k in range(nh):
         case = (rng.randrange(10**9), ctx.pick(200, 300))
         if k == 0:
             ctx.sample("history", f"pool seed {case[0]}, {case[1]} random ops from {OPS}")
         ctx.run("C01.history", case)
+    ctx.floor("wide_nodes", 150)
     ctx.floor("pairs", 50000)
     ctx.floor("equal_pairs", 1000)
     ctx.floor("unequal_pairs", 10000)
     ctx.floor("mutation_attempts", 1000)
     ctx.floor("history_ops", 5000)
+    ctx.floor("augmented_assignments", 500)
     ctx.floor("copies_checked", 100)
     ctx.floor("pool:field", 100)
     ctx.floor("pool:collision", 100)
